@@ -257,6 +257,28 @@ func runC17(c *core.Ctx) {
 						// writing the header slice directly (r.Header[\"Cookie\"] = …)
 						return false
 					})
+					if !okPair {
+						// the other order: the key is un-assigned first and nothing assigns it again before the delete
+						for _, b2 := range fn.Blocks {
+							for _, un := range b2.Instrs {
+								k2, _, isUn := keyStoreCall(un, "Unassign")
+								if !isUn || !sameKey(k, k2) || !core.InstrDominates(un, in) {
+									continue
+								}
+								reassigned := false
+								for _, b3 := range fn.Blocks {
+									for _, i3 := range b3.Instrs {
+										if k3, _, isAs := keyStoreCall(i3, "Assign"); isAs && sameKey(k, k3) && core.InstrDominates(un, i3) && core.Reaches(b3, b) && !core.InstrDominates(in, i3) {
+											reassigned = true
+										}
+									}
+								}
+								if !reassigned {
+									okPair = true
+								}
+							}
+						}
+					}
 					if okPair {
 						c.Discharge("hdr.pair", key, in.Pos(), "followed on every path by Unassign of the same key (or a Set/Add of it)")
 					} else {
